@@ -52,9 +52,9 @@ ENGINES[0]["serves_properties"] = sorted(CHECKS.keys())
 ENGINES[1]["serves_properties"] = ["C14", "C15", "C18", "C19", "C20"]
 
 CHECKS.update({
-    "C01": _c("mirfacts", "field-dependency completeness (reads) per trait role, must-pass-through on the conjunction of selector groups, enum-arm/field correspondence for holiday calendars, shape rules on the midnight spill, query-based merge rule",
-              "Decides: a rule is matched against all four selector groups conjunctively and every leaf selector reads every field of every variant; PH/SH read only, and the right, context calendar on the date shifted by the rule's offset, and evaluation reaches no embedded database; time spans are projected through every meaningful field; the spill past midnight is cut at 24:00/48:00 and shifted by exactly -24 h, a span wraps iff not start < end; overlapping spans are merged keeping the farther end. Does not decide selector arithmetic (steps, nth, offsets, leap days, Easter, ISO weeks) nor the overlay of rule kinds/operators.",
-              "DESIGN.md section 3, C01", _TB + "Not decided: arithmetic on dates; e.g. an off-by-one in the nth-weekday position is invisible to these rules."),
+    "C01": _c("mirfacts", "field-dependency completeness (reads) per trait role, must-pass-through on the conjunction of selector groups, enum-arm/field correspondence for holiday calendars, shape rules on the midnight spill, query-based merge rule, exhaustive evaluation of the extracted nth-position index expressions over their complete finite domain",
+              "Decides: a rule is matched against all four selector groups conjunctively and every leaf selector reads every field of every variant; PH/SH read only, and the right, context calendar on the date shifted by the rule's offset, and evaluation reaches no embedded database; time spans are projected through every meaningful field; the spill past midnight is cut at 24:00/48:00 and shifted by exactly -24 h, a span wraps iff not start < end; overlapping spans are merged keeping the farther end; the indices into the nth tables are ceil(d/7)-1 and ceil((n-d+1)/7)-1 for every day of every month length, taken from the shifted date. Does not decide other selector arithmetic (steps, offsets, leap days, Easter, ISO weeks) nor the overlay of rule kinds/operators.",
+              "DESIGN.md section 3, C01", _TB + "Not decided: arithmetic on dates in general. C01.R6 evaluates one extracted integer expression on all 118 elements of its domain (labelled in DESIGN.md)."),
     "C02": _c("mirfacts", "operation-class rules (MIN before flatten, no adaptor between list and aggregation), reads completeness for hints and for the constant shortcut, sibling agreement filter/hint, guard dominance in the iterator",
               "Decides: hints are combined as minima over all rules, all selector groups and all elements, with 'unknown' (None) winning; leaf hints read every field or answer unknown; the constant shortcut reads every rule attribute schedule_at branches on and compares only with the hole state; the hint's calendar lookups use the filter's shifted date; the iterator only jumps to a hint asserted to be in the future. Does not decide that each selector's hint value is a lower bound, nor merging across days.",
               "DESIGN.md section 3, C02", _TB + "Not decided: hint values (e.g. a hint one day late)."),
